@@ -1047,7 +1047,10 @@ class Interp:
             c, p = self.place(st, fr, t.place)
             if c in st.mem:
                 v = self.read(st, c, p)
-                if isinstance(v, Guard):
+                from . import models as _m
+                if _m.I_drop_value[0] is not None:
+                    _m.I_drop_value[0](self, st, v)
+                elif isinstance(v, Guard):
                     self.release(st, v)
         except Unsupported:
             pass
